@@ -3,6 +3,7 @@ mod corpus;
 mod e1;
 mod e2;
 mod e2x;
+mod e3;
 mod e4;
 mod subjects;
 
@@ -48,9 +49,18 @@ fn main() {
                 let file = args.get(4).cloned().unwrap_or_else(|| usage());
                 let ctx = Ctx::new("quick");
                 match id.as_str() {
-                    "C08" | "C05" => e4::replay_cmd(&ctx, &id, &file),
+                    "C08" => e4::replay_cmd(&ctx, &id, &file),
+                    "C05" => {
+                        let text = std::fs::read_to_string(&file).unwrap_or_default();
+                        if text.contains("\"c05text\"") {
+                            e4::replay_cmd(&ctx, &id, &file)
+                        } else {
+                            e3::replay_cmd(&ctx, &id, &file)
+                        }
+                    }
                     "C09" | "C10" | "C16" => e1::replay_cmd(&ctx, &id, &file),
                     "C01" | "C02" | "C03" | "C04" | "C11" => e2::replay_cmd(&ctx, &id, &file),
+                    "C06" | "C17" => e3::replay_cmd(&ctx, &id, &file),
                     _ => inconclusive("replay not implemented for this property"),
                 }
             }
@@ -65,6 +75,8 @@ fn main() {
                 "C03" => e2x::c03(&ctx),
                 "C04" => e2x::c04(&ctx),
                 "C11" => e2x::c11(&ctx),
+                "C06" => e3::c06(&ctx),
+                "C17" => e3::c17(&ctx),
                 "C08" => e4::c08(&ctx),
                 "C09" => e1::c09(&ctx),
                 "C10" => e1::c10(&ctx),
@@ -84,6 +96,11 @@ fn main() {
                     let mut out = Outcome::default();
                     out.rule = "text level: sets of 2-5 standalone file texts in export_to_string format (name pool with prefixes/generics, overlapping import modules, doc comments containing `export type`/`import type`/` from `, multi-line bodies with field docs) folded through merge() in all permutations (<=4 elements; 30 of 120 for 5) and all prefixes, compared with the reference combiner. Non-trivial: >=3 types with a doc comment or overlapping import modules; distinct by text set".into();
                     e4::c05_text(&ctx, &mut out, &known);
+                    out.rule.push_str(". File level: generated universes of types sharing files, exported in 12 (quick) / 60 (thorough) generated permutations per universe one type at a time with the tree compared against the reference combiner after EVERY step (= all prefixes), then re-exported (idempotence); plus 8 / 60 schedules per universe: every type exported twice from 2-8 threads with a generated delay tape injected at the four yield points inside export_and_merge (hook), final tree == combiner of the full set");
+                    out.assumptions.push("thread schedules are perturbed through the yield-point hook, not enumerated: detection of a narrowed critical section is probabilistic".into());
+                    if out.violations.is_empty() {
+                        e3::c05_files(&ctx, &mut out, &known);
+                    }
                     finish(&ctx, "C05", out)
                 }
                 _ => inconclusive("no such check"),
